@@ -557,6 +557,14 @@ def main():
     # keep the run quiet
     import logging
     logging.disable(logging.CRITICAL)
+    if job.get("debug_logging") and not job.get("resume"):
+        # verbosity is a legitimate dimension of use (`-vv`): mediators, schedulers and the state handler cache isEnabledFor(DEBUG)
+        # at construction and take other code paths then; the records go to a null sink
+        logging.disable(logging.NOTSET)
+        lg = logging.getLogger("jellyfysh")
+        lg.setLevel(logging.DEBUG)
+        lg.propagate = False
+        lg.handlers = [logging.NullHandler()]
     import warnings
     warnings.simplefilter("ignore")
     try:
